@@ -111,6 +111,10 @@ class RecConsumer(object):
             self.stopped = True
             p.stopProducing()
             return
+        if isinstance(self.stop_at, float):
+            # the consumer gives up after a while (a closed browser tab): typically while a segment is being fetched
+            dc = R.callLater(self.stop_at, self._stop_later, p)
+            dc.sim_label = "consumer-stop:" + self.name
         if not streaming:
             # pull producer (LiteralFileNode uses FileSender): ask until it unregisters
             n = 0
@@ -136,6 +140,11 @@ class RecConsumer(object):
                 p = self.producer
                 dc = R.callLater(self.pause_for, self._resume, p)
                 dc.sim_label = "consumer-resume:" + self.name
+
+    def _stop_later(self, p):
+        if self.producer is p and not self.stopped:
+            self.stopped = True
+            p.stopProducing()
 
     def _resume(self, p):
         if self.producer is p:
@@ -256,6 +265,18 @@ def gen_roundtrip(seed, tier, focus):
            "convergence": ch.pick("config", "conv", ["A", "A", "B", None] + (["", "A"] if focus == "C05" else [])),
            "how": ch.pick("config", "how", ["data", "filehandle", "filename", "chunky"] + (["filehandle-at-end", "filehandle-mid"] if focus == "C05" else [])),
            "knobs": gen_knobs(ch), "net": gen_net(ch)}
+    if focus == "C04":
+        cfg["warm"] = ch.chance("config", "warm", 0.4)
+        # random access is about files of several segments: few literals, few single-segment files, and an upload that
+        # can succeed
+        segk_ = max(k, (seg // k) * k) if seg >= k else k
+        if (size <= 55 or size <= segk_) and ch.chance("config", "c04-multiseg", 0.8):
+            if segk_ > 4096:
+                cfg["seg"] = seg = ch.pick("config", "c04-seg", [3 * k, 64, 100, 1024])
+                segk_ = max(k, (seg // k) * k)
+            cfg["size"] = size = max(56, ch.pick("config", "c04-size", [2 * segk_, 3 * segk_ + 1, 5 * segk_ - 1, 7 * segk_, 4 * segk_ + k]))
+        if min(nservers, n) < happy and ch.chance("config", "c04-happy", 0.8):
+            cfg["happy"] = happy = min(nservers, n)
     ops = []
     nreads = ch.randint("workload", "nreads", 1, 4) if focus in ("C04",) else ch.randint("workload", "nreads", 1, 2)
     esize = max(size, 1)
@@ -270,7 +291,7 @@ def gen_roundtrip(seed, tier, focus):
                                              ch.randrange("workload", ("szr", i), esize + 20)])
         start = ch.pick("workload", ("start", i), [0.0, 0.0, 0.001, 0.02, 0.3])
         pause_at = ch.pick("workload", ("pause", i), [None, None, 1, 2, 3]) if focus == "C04" else None
-        stop_at = ch.pick("workload", ("stop", i), [None, None, None, 0, 1, 2]) if focus == "C04" else None
+        stop_at = ch.pick("workload", ("stop", i), [None, None, None, 0, 1, 2, 0.0004, 0.003, 0.03, 0.4]) if focus == "C04" else None
         ops.append(["read", off, sz, start, pause_at, stop_at, ch.pick("workload", ("pfor", i), [0.01, 1.0, 20.0])])
     return {"engine": "immsim", "profile": "roundtrip", "focus": focus, "seed": seed, "cfg": cfg, "ops": ops, "faults": []}
 
@@ -385,6 +406,15 @@ def exec_roundtrip(case):
         # --- reads through a fresh client
         c2 = g.add_client(k=3, happy=1, n=10)
         node = c2.create_node_from_uri(cap)
+        if cfg.get("warm") and len(data) > 0:
+            # an earlier read on the same node has completed: the node knows the file's real segmentation when the
+            # concurrent reads arrive
+            wc = RecConsumer("warm")
+            stw, rw_ = run(node.read(wc, 0, 1))
+            settle()
+            if stw != "ok" or wc.data() != data[:1]:
+                bad("C04", "bytes", "warm-up read(0,1) returned %r (%s)" % (wc.data(), stw))
+            probe("warm-node")
         pending = []
         for i, op in enumerate(case["ops"]):
             _, off, sz, start, pause_at, stop_at, pfor = op
